@@ -94,10 +94,12 @@ type c19Gen struct {
 }
 
 var c19DefPool = []string{"a", "b", "c", "hdr", "ftr", c19Root, "x.y", "content"}
-var c19LayoutDirs = []string{"default", "main", "alt"}
-var c19ViewDirs = []string{"v", "w", "u"}
-var c19ReqLayouts = []string{"", "", "default", "main", "alt", "ghost"}
-var c19ReqViews = []string{"v", "w", "u", "v", "w", "ghost"}
+
+// names containing ':' exercise the views cache key: ("a:b","c") vs ("a","b:c")
+var c19LayoutDirs = []string{"default", "main", "alt", "a", "a:b"}
+var c19ViewDirs = []string{"v", "w", "u", "c", "b:c"}
+var c19ReqLayouts = []string{"", "", "default", "main", "alt", "ghost", "a", "a:b"}
+var c19ReqViews = []string{"v", "w", "u", "v", "w", "ghost", "c", "b:c"}
 
 func (g *c19Gen) file(name string) *c19Node {
 	n := &c19Node{Name: name}
@@ -703,7 +705,12 @@ func c19GenReq(rng *RNG, n int) c19Req {
 func c19GenSeq(rng *RNG) []c19Req {
 	l := c19ReqLayouts[rng.Intn(len(c19ReqLayouts))]
 	v := c19ReqViews[rng.Intn(len(c19ReqViews))]
-	switch rng.Intn(8) {
+	switch rng.Intn(9) {
+	case 4: // two (layout, view) pairs whose concatenation with ':' coincides
+		if rng.Bool() {
+			return []c19Req{{Op: "view", L: "a:b", V: "c"}, {Op: "view", L: "a", V: "b:c"}, {Op: "exec", R: 0}, {Op: "view", L: "a:b", V: "c"}}
+		}
+		return []c19Req{{Op: "view", L: "a", V: "b:c"}, {Op: "view", L: "a:b", V: "c"}, {Op: "view", L: l, V: v}}
 	case 0: // the caller renders the layout, then asks for a view of it
 		return []c19Req{{Op: "layout", L: l}, {Op: "exec", R: 0}, {Op: "view", L: l, V: v}, {Op: "layout", L: l}}
 	case 1:
@@ -899,7 +906,7 @@ func runC19(o *Out, rng *RNG, tier string, replay string) {
 	o.CaseType = "case"
 	o.CheckFn = "check"
 	o.ShardSize = 60
-	o.Rule = "file sets on a memfs: helpers/, layouts/{default,main,alt}/, views/{v,w,u}/ with 0-3 entries per directory (files with and " +
+	o.Rule = "file sets on a memfs: helpers/, layouts/{default,main,alt,a,a:b}/, views/{v,w,u,c,b:c}/ with 0-3 entries per directory (files with and " +
 		"without the extension, nested directories up to depth 2, definition names from a pool of 8 so that layers overlap, a missing " +
 		"directory with probability 12-28%, ~2% empty/malformed files, every body a unique marker); per file set 5 request sequences " +
 		"(<= 5 requests over Base/Layout/View/Execute of an earlier result; layout/view names include \"\", missing ones) x {html,text} " +
@@ -952,29 +959,28 @@ func runC19(o *Out, rng *RNG, tier string, replay string) {
 	o.Extra["file_sets_evaluated_in_coq"] = coqSets
 	o.Extra["runs_per_file_set"] = nSeq * 4
 
-	// known, unrepaired: key collision of the views cache for names containing ':' (kept out of
-	// the generated names; C19_keycollision_refuted is the machine-checked witness)
+	// the key collision of the views cache repaired in 7035bfe (C19_keycollision_refuted is the
+	// machine-checked witness for the old key), deterministically
 	c19KeyCollision(o)
 
 	// concurrent first use in a child process (a Go "concurrent map read and map write" is fatal)
 	c19Concurrent(o, rng.Next()%1000000, rounds)
 }
 
+// the pair of requests whose old cache keys (layout + ":" + view) coincide, on a fixed file set
 func c19KeyCollision(o *Out) {
 	d := &c19FS{Ext: ".t", Views: []c19Dir{
 		{Name: "c", Children: []*c19Node{{Name: "f.t", Defs: []c19Def{{"a", 1}}}}},
 		{Name: "b:c", Children: []*c19Node{{Name: "f.t", Defs: []c19Def{{"a", 2}}}}},
 	}}
 	reqs := []c19Req{{Op: "view", L: "a:b", V: "c"}, {Op: "view", L: "a", V: "b:c"}}
+	var runs []string
 	for _, html := range []bool{true, false} {
-		u := c19RunSeq(html, false, d, reqs)
-		c := c19RunSeq(html, true, d, reqs)
-		if len(u.Obs) == 2 && len(c.Obs) == 2 && !u.Obs[1].equal(c.Obs[1]) {
-			o.Stat("known_keycollision_reproduced_" + c19KindName(html))
-		} else {
-			o.Stat("known_keycollision_gone_" + c19KindName(html))
-		}
+		r, _ := c19EvalSeq(o, d, html, reqs, d.onlyIn())
+		runs = append(runs, r...)
 	}
+	t := d.coq()
+	o.AddCase(fmt.Sprintf("CSet %s %s", t, coqList(runs)), map[string]interface{}{"op": "set", "fs": d, "seqs": [][]c19Req{reqs}}, "keycollision:"+t, true)
 }
 
 type c19ChildReport struct {
